@@ -890,7 +890,16 @@ pub fn drive_tables(a: &Args) {
             Some(bs) => (jw32(bs), block_size::log_from_valid(bs) as i32, block_size::is_valid(bs)),
             None => ("[-1,-1]".to_string(), -1, false),
         };
-        sh.emit(&format!("{{\"ev\":\"bslog\",\"panics\":0,\"n\":{},\"valid\":{},\"from\":{},\"back\":{},\"isvalid\":{}}}", n, valid, fj, back, isv));
+        // the canonical decimal form (through a hash object that carries this block size) and back
+        let (txt, parsed, acc) = if valid {
+            let h = RawFuzzyHash::new_from_internals_near_raw(n, &[], &[]);
+            let t = h.to_string();
+            let p = t.parse::<LongFuzzyHash>().map(|x| x.log_block_size() as i32).unwrap_or(-1);
+            (jarr_u8(t.as_bytes()), p, jw32(h.block_size()))
+        } else {
+            ("[]".to_string(), -1, "[-1,-1]".to_string())
+        };
+        sh.emit(&format!("{{\"ev\":\"bslog\",\"panics\":0,\"n\":{},\"valid\":{},\"from\":{},\"back\":{},\"isvalid\":{},\"txt\":{},\"parsed\":{},\"acc\":{}}}", n, valid, fj, back, isv, txt, parsed, acc));
     }
     // (3) relations: all 31 x 31
     for x in 0..31u8 {
